@@ -320,13 +320,30 @@ def build_harness(bin_name, features=None, hooks=False, timeout=1500):
 # ------------------------------------------------------------------------------------------
 # running cases
 # ------------------------------------------------------------------------------------------
+def _big_stack():
+    """the extracted runners (OCaml native code) recurse on their data (List.app, printers): give them a 2 GiB soft stack
+    where the hard limit allows it, so that a large case never shows up as a spurious (model-stack-overflow)"""
+    try:
+        import resource
+        soft, hard = resource.getrlimit(resource.RLIMIT_STACK)
+        want = 2 << 30
+        if hard != resource.RLIM_INFINITY:
+            want = min(want, hard)
+        if soft == resource.RLIM_INFINITY or soft >= want:
+            return
+        resource.setrlimit(resource.RLIMIT_STACK, (want, hard))
+    except Exception:
+        pass
+
+
 def run_lines(exe, lines, timeout=600, shards=1, args=()):
     """feed lines to exe (one per line), return list of output lines (same length) or raise"""
     if not lines:
         return []
     if shards <= 1 or len(lines) < 4 * shards:
         data = ('\n'.join(lines) + '\n').encode()
-        p = subprocess.run([exe] + list(args), input=data, stdout=subprocess.PIPE, stderr=subprocess.PIPE, timeout=timeout)
+        p = subprocess.run([exe] + list(args), input=data, stdout=subprocess.PIPE, stderr=subprocess.PIPE, timeout=timeout,
+                           preexec_fn=_big_stack)
         out = p.stdout.decode('utf-8', 'replace').split('\n')
         if out and out[-1] == '':
             out.pop()
